@@ -123,6 +123,7 @@ type Engine struct {
 	weak          *weakLedger
 	lastShadow    map[*Shadow]Result
 	lastGot       []Ev
+	rmOrder       []ecs.Entity
 }
 
 func NewEngine(p *Plan) *Engine {
@@ -181,6 +182,8 @@ func (e *Engine) locked() bool { return len(e.Open) > 0 }
 func (e *Engine) viol(class string, op *COp, format string, args ...interface{}) *Violation {
 	return &Violation{Class: class, Step: e.step, Msg: fmt.Sprintf(format, args...), Op: op, World: "primary"}
 }
+
+var structuralName = map[string]bool{"new": true, "newbatch": true, "rm": true, "xchg": true, "setrel": true, "batch": true, "reset": true, "regtype": true}
 
 func structural(op *COp) bool {
 	switch op.Kind {
@@ -352,7 +355,20 @@ func (e *Engine) doStep(st *Step) *Violation {
 	}
 	c := &cursor{a: st.A}
 	var v *Violation
-	switch st.Op {
+	opName := st.Op
+	if e.locked() && structuralName[opName] && len(st.A) > 0 {
+		// A mutator scheduled while the world is locked is issued anyway (and must be refused) only part of the
+		// time; otherwise the iterator holding the lock gets the turn, so that most steps are legal progress.
+		y := int(st.A[len(st.A)-1] % 100)
+		if y < e.P.LockedYield {
+			if y%3 == 0 {
+				opName = "qclose"
+			} else {
+				opName = "qnext"
+			}
+		}
+	}
+	switch opName {
 	case "new":
 		v = e.opNew(c)
 	case "newbatch":
